@@ -353,7 +353,10 @@ Modes(ts) == { Mode(ds, ms, fl, nt, sg, kw, ws, len) :
                  sg \in {FALSE},
                  \* let / in are not reserved: the grammar's identifier is any unquoted-string, and a let expression
                  \* is recognised by "let" in front of a variable binding (C04: every string of the grammar compiles)
-                 kw \in {FALSE}, ws \in Both(HasWsComposite(ts)),
+                 \* blanks inside "[*]" and ".*" are legal: "[" "*" "]" are three terminals of the grammar, "." "*" two (C04:
+                 \* "every legal placement of whitespace ... never silently reinterpreted"); open until round 10 because the
+                 \* implementation rejected them, or read "[ * ]" as a multi-select of the object wildcard
+                 kw \in {FALSE}, ws \in {TRUE},
                  len \in Both(HasOpenLit(ts)) }
 DefaultMode == Mode(FALSE, FALSE, FALSE, TRUE, FALSE, FALSE, TRUE, TRUE)
 \* the two pure readings of DESIGN.md appendix A
